@@ -665,10 +665,11 @@ func loadFindings() findingsFile {
 // run
 
 type propInfo struct {
-	Level string
-	Race  bool
-	Rule  string
-	Assum []string
+	Level      string
+	Race       bool
+	Rule       string
+	Assum      []string
+	Exhaustive string // names the layer that is enumerated completely (reported only for a complete run)
 }
 
 var props = map[string]propInfo{}
@@ -794,6 +795,10 @@ func report(prop, tier string, seed int64, info propInfo, a *agg, b *build, buil
 	}
 	if info.Race {
 		cov["race_reports"] = a.raceReports
+	}
+	if info.Exhaustive != "" && a.crashes == 0 && len(a.inconcl) == 0 {
+		cov["exhaustive"] = true
+		cov["exhaustive_layer"] = info.Exhaustive
 	}
 	for k, v := range a.stSum {
 		cov[k] = v
